@@ -269,6 +269,27 @@ def match_known(known: list[dict], pid: str, signature: str):
 # --------------------------------------------------------------------------------------------
 # The check protocol
 
+_SUBPROC_OK = None
+
+
+def subprocess_ok() -> bool:
+    """Can this sandbox start a fresh interpreter that imports black_it and the harness peers?  The confirmation
+    features that need one (fresh-interpreter twins, real threads, real worker processes, strace) are skipped, and
+    counted as skipped, where it cannot - they are confirmations of the simulation, not the simulation."""
+    global _SUBPROC_OK
+    if _SUBPROC_OK is None:
+        if os.environ.get("VERIF_NO_SUBPROCESS") == "1":
+            _SUBPROC_OK = False
+            return False
+        try:
+            p = subprocess.run([sys.executable, "-c", "import black_it, sim.models, sim.calsim; print('ok')"],
+                               capture_output=True, text=True, timeout=120)
+            _SUBPROC_OK = p.returncode == 0 and "ok" in p.stdout
+        except Exception:  # noqa: BLE001
+            _SUBPROC_OK = False
+    return _SUBPROC_OK
+
+
 class Check:
     """A property check: scenario generator + simulated run + shrinker.  Subclasses live in sim/props."""
 
